@@ -38,8 +38,8 @@ def canonical(d, i, depth=0):
 
 def dump_body(d, cases):
     """Coq evaluation: modelled Trace vs real edges (opaque cut-off included) and derive_head on every opaque allowlisted type"""
-    rows = "; ".join("(%d, %s, %s, %s, %s, %d)" % (i, "true" if cdu else "false", "true" if isref else "false", "true" if own else "false", "true" if tgt else "false", impl)
-                     for (i, cdu, isref, own, tgt, impl) in cases)
+    B = lambda x: "true" if x else "false"
+    rows = "; ".join("(%d, %s, %s, %s, %s, %s, %d)" % (i, B(al), B(cdu), B(isref), B(own), B(tgt), impl) for (i, al, cdu, isref, own, tgt, impl) in cases)
     return """From Coq Require Import NArith List Bool.
 From BG Require Import C07.Model C07.Exec C10.Model.
 From BGgen Require Import C07_Table.
@@ -49,10 +49,10 @@ Definition items : list (N * item) :=
 Definition edges : list (N * list (N * N)) :=
  %s.
 Eval vm_compute in trace_mismatches items edges.
-Definition rows : list (N * bool * bool * bool * bool * N) := [%s].
-Eval vm_compute in map (fun r => match r with (i, cdu, isref, own, tgt, impl) => i end)
-  (filter (fun r => match r with (i, cdu, isref, own, tgt, impl) =>
-     negb (N.eqb (derive_head true None true (no_derive cdu true (head_union isref own tgt)) Yes) impl) end) rows).
+Definition rows : list (N * bool * bool * bool * bool * bool * N) := [%s].
+Eval vm_compute in map (fun r => match r with (i, al, cdu, isref, own, tgt, impl) => i end)
+  (filter (fun r => match r with (i, al, cdu, isref, own, tgt, impl) =>
+     negb (N.eqb (derive_head al None true (no_derive cdu true (head_union isref own tgt)) Yes) impl) end) rows).
 """ % (d.coq_items(), d.coq_edges(), rows)
 
 
@@ -74,7 +74,7 @@ def run(ck):
             hdr = g.header(12)
             used = {d for x in g.recs for d in deps_of(x, g.recs)}
             pool = sorted(used) or [g.recs[0].name]
-            for mode in ("opaque", "blocklist"):
+            for mode in ("opaque", "blocklist", "both"):
                 cases.append((b, mode, r.choice(pool), g.recs, hdr))
 
         def one(c):
@@ -83,12 +83,12 @@ def run(ck):
             h = os.path.join(tmp, "h_%s.h" % tag)
             open(h, "w").write(hdr)
             cn, err = e2e.c_probe(h, recs, tmp, tag)
-            fl = ["--no-layout-tests", "--opaque-type" if mode == "opaque" else "--blocklist-type", "^%s$" % target]
+            fl = ["--no-layout-tests"] + (["--opaque-type", "^%s$" % target] if mode in ("opaque", "both") else []) + (["--blocklist-type", "^%s$" % target] if mode in ("blocklist", "both") else [])
             rc, out, err2, d = irdump.run_dump(bindgen, h, fl + DERIVES, [], cwd=tmp, log=os.path.join(tmp, "log_" + tag))
             res = {"cn": cn, "rc": rc, "out": out, "err": err2, "dump": d}
             if rc == 0 and cn is not None:
                 text = out
-                if mode == "blocklist":
+                if mode in ("blocklist", "both"):
                     ct = cn[target]
                     # the user vouches for nothing: a bare blob of the right size and alignment
                     text = "#[repr(C, align(%d))] pub struct %s(pub [u8; %d]);\n" % (ct["align"], target, ct["size"]) + out
@@ -109,7 +109,7 @@ def run(ck):
                 continue
             out = res["out"]
             defined = re.search(r"pub (?:struct|union) %s\b" % target, out) is not None
-            if mode == "blocklist":
+            if mode in ("blocklist", "both"):
                 if defined:
                     ck.violation("C10-blocklisted-defined", "a blocklisted type is defined in the output", data)
                 users = [x for x in recs if target in deps_of(x, recs)]
@@ -157,8 +157,19 @@ def run(ck):
             if res["rc"] != 0 or d is None or not d.complete:
                 continue
             rows = []
+            reached = {t for i, es in d.edges.items() if d.items[i]["allow"] for (t, _) in es}
             for i, it in sorted(d.items.items()):
-                if it["ikind"] != "type" or not it["allow"] or not it["opaque"]:
+                if it["ikind"] != "type":
+                    continue
+                if not it["allow"]:
+                    # a non-allowlisted (blocklisted) type reached from an allowlisted item: nobody vouches for it on the command line
+                    if i in reached and it.get("tkind") in ("Comp", "ResolvedTypeRef"):
+                        for tr, cdu in TRAITS:
+                            if d.ran.get(tr):
+                                v = d.res.get(tr, {}).get(i)
+                                rows.append((i, False, cdu, False, False, False, 0 if v is None else (1 if v == "Manually" else 2)))
+                    continue
+                if not it["opaque"]:
                     continue
                 k = it.get("tkind")
                 if k == "Comp":
@@ -174,7 +185,7 @@ def run(ck):
                     if d.ran.get(tr):
                         v = d.res.get(tr, {}).get(i)
                         impl = 0 if v is None else (1 if v == "Manually" else 2)
-                        rows.append((i, cdu, k == "ResolvedTypeRef", own, tgt, impl))
+                        rows.append((i, True, cdu, k == "ResolvedTypeRef", own, tgt, impl))
             bodies.append(dump_body(d, rows))
             metas.append((hdr, mode, target, d, rows))
         ok, out = vlib.coq_make(["theories/C07/Exec.vo", "gen/C07_Table.vo", "theories/C10/Model.vo"])
